@@ -55,6 +55,23 @@ __CPROVER_assigns(P_FRAME)
 //@LIFT body
 #endif
 
+#ifdef U_TRY_ACQUIRE_FOR
+/* try_acquire_for(rel_time): a forwarder -- exactly one try_acquire_until with the deadline rel_time.from_now(), whatever the
+ * duration is (zero and negative durations included: the counter is consulted before the deadline), result passed through */
+static long g_tau_calls; static long g_tau_deadline; static bool g_tau_ret; static long g_from_now_of; static long g_from_now_ret;
+static long dur_from_now(long rel) { g_from_now_of = rel; g_from_now_ret = nondet_long(); return g_from_now_ret; }
+static long dur_value(long rel) { return rel; }
+static long dur_zero(void) { return 0; }
+static long clock_now(void) { long t = nondet_long(); return t; }
+static bool try_acquire_until(struct psem *self, long abs_time) { if (g_tau_calls < 2) g_tau_calls++; g_tau_deadline = abs_time; g_tau_ret = nondet_bool(); return g_tau_ret; }
+//@FUNC
+bool try_acquire_for(struct psem *self, long rel_time)
+__CPROVER_requires(g_tau_calls == 0)
+__CPROVER_ensures(g_tau_calls == 1 && g_from_now_of == rel_time && g_tau_deadline == g_from_now_ret && __CPROVER_return_value == g_tau_ret)
+__CPROVER_assigns(g_tau_calls, g_tau_deadline, g_tau_ret, g_from_now_of, g_from_now_ret)
+//@LIFT body
+#endif
+
 void harness(void)
 {
   struct psem s;
@@ -70,6 +87,12 @@ void harness(void)
 #endif
 #ifdef U_TRY_ACQUIRE_UNTIL
   if (try_acquire_until(&s, nondet_long())) VX_REACH("true"); else VX_REACH("false");
+#endif
+#ifdef U_TRY_ACQUIRE_FOR
+  g_tau_calls = 0; g_tau_deadline = 0; g_tau_ret = false; g_from_now_of = 0; g_from_now_ret = 0;
+  long rel = nondet_long();
+  if (try_acquire_for(&s, rel)) VX_REACH("true"); else VX_REACH("false");
+  if (rel <= 0) VX_REACH("zero_or_negative_duration");
 #endif
   VX_REACH("returned");
 }
